@@ -53,8 +53,11 @@ CHECKS = {
            "rule error delimit whole characters of the expression (within bounds, on character boundaries) - by induction over the fuelled model of the nom grammar and "
            "the breadth-first rule checker. Tie: every error and capture span vs the span-annotated parser model. "
            "Oracle: bounds and character boundaries of every span, capture slices re-parse to the captured token kind, also after partition.",
-    'C18': "Proved: the literal parser reads escape(s) back as s for separator-free backslash-free s; every parser-special character except `/` `\\` is a meta-character; "
-           "identity on meta-free strings. Tie: escape() and the three character tables over all 1,114,112 code points. Oracle: Glob::new(escape(s)) text/match/mutants.",
+    'C18': "Proved end to end in the model of the build pipeline (all strings): C18_escape_builds_a_glob_for_exactly_the_text - for every string without backslash, "
+           "without two adjacent separators and shorter than the invariant size limit, build(escape s) is a glob (it parses into literals and separators that spell s - "
+           "parser fuel proved adequate -, passes every rule, compiles), its text is invariant and equal to s, and its program matches s and no other text, whatever "
+           "the case-folding table; every parser-special character except `/` `\\` is a meta-character; identity on meta-free strings. Tie: escape() and the three "
+           "character tables over all 1,114,112 code points; tree / program of Glob::new(escape(s)). Oracle: Glob::new(escape(s)) text/match/mutants.",
     'C19': "Proved: fold_map with the identity returns the same tree (bounds survive NaturalRange). Tie: tree/program vs model. Oracle: all conversion routes give identical "
            "observables (tree, program, queries, matches, capture spans borrowed/owned).",
     'C02': "Proved (all trees with valid names, all token trees with separator-free literals - proved of every tree the parser produces - any engine that decides the "
